@@ -26,6 +26,9 @@ var r *report.Run
 
 var stopProfile = func() {}
 
+// serialMode: enumerate on a single goroutine (set when the -race pass reported a data race).
+var serialMode bool
+
 // refRoots[s] is the independent reference root of content state s.
 var refRoots [NS][32]byte
 
@@ -88,7 +91,30 @@ func sigOf(ph string, n []int64, oracle string) string {
 }
 
 // flush turns the collected minimal cases into confirmed violations.
+//
+// When run.sh's -race pass reported a data race in the code under test (or its goroutines computed values
+// that differ from the single-threaded ones), the parallel phases of this run worked on top of that race:
+// an observation made there need not reproduce single-threaded. Such an observation is recorded, not
+// reported, and the run is decided by the data-race violation (exit 1) instead of ending as an
+// irreproducible finding (exit 3). Without a reported race nothing changes.
 func flush() {
+	rp := os.Getenv("VERIF_RACE_PASS")
+	raceReported := strings.HasPrefix(rp, "race:")
+	if strings.HasPrefix(rp, "failed:1:") {
+		out, _ := os.ReadFile(strings.TrimPrefix(rp, "failed:1:"))
+		var lines []string
+		for _, l := range strings.Split(string(out), "\n") {
+			if strings.HasPrefix(l, "RESULT DIFFERS") && len(lines) < 5 {
+				lines = append(lines, l)
+			}
+		}
+		if len(lines) > 0 {
+			raceReported = true
+			r.Violation("C07|oracle=concurrent-result-differs-from-single-threaded-value",
+				"goroutines working on private tries computed results that differ from the values computed single-threaded (shared mutable state inside the code under test): "+strings.Join(lines, " | "),
+				map[string]interface{}{"kind": "race-pass", "output": lines})
+		}
+	}
 	fmu.Lock()
 	var ks []string
 	for k := range best {
@@ -97,18 +123,35 @@ func flush() {
 	fmu.Unlock()
 	sort.Strings(ks)
 	w := newWorker()
+	var unstable []string
 	for _, k := range ks {
 		f := best[k]
 		c := f.c
 		c.Descr = phases[c.Phase].descr(c.N)
 		sig := sigOf(c.Phase, c.N, c.Oracle)
-		r.ViolationConfirmed(sig, f.detail, c, func() string {
+		again := func() string {
 			o, _ := phases[c.Phase].run(w, c.N)
 			if o == "" {
 				return ""
 			}
 			return sigOf(c.Phase, c.N, o)
-		})
+		}
+		if raceReported {
+			ok := true
+			for i := 0; i < 5 && ok; i++ {
+				ok = again() == sig
+			}
+			if ok {
+				r.Violation(sig, f.detail, c)
+			} else if len(unstable) < 20 {
+				unstable = append(unstable, sig)
+			}
+			continue
+		}
+		r.ViolationConfirmed(sig, f.detail, c, again)
+	}
+	if len(unstable) > 0 {
+		r.Set("observations_under_reported_race_not_reproducible_single_threaded", unstable)
 	}
 }
 
@@ -145,6 +188,18 @@ func putWorker(w *worker) {
 func parRange(n, chunk int64, f func(w *worker, i int64)) int64 {
 	nch := (n + chunk - 1) / chunk
 	var done int64
+	if serialMode {
+		w := getWorker()
+		defer putWorker(w)
+		for i := int64(0); i < n; i++ {
+			if i%chunk == 0 && r.Expired() {
+				break
+			}
+			f(w, i)
+			done++
+		}
+		return done
+	}
 	par.For(nch, 1, r.Expired, func(c int64) {
 		w := getWorker()
 		lo, hi := c*chunk, (c+1)*chunk
@@ -368,6 +423,14 @@ func mergeWorkers() {
 
 func main() {
 	r = report.New("C07", "model_checking")
+	initUniverse()
+	initStateOrder()
+	initProbes()
+	initRange()
+	if os.Getenv("C07_RACE_PASS") == "1" {
+		runRacePass() // free-running pass of the -race build (racepass.go); exits
+		return
+	}
 	// the tries under test are tiny and short-lived: collect by heap size, not by growth ratio
 	debug.SetGCPercent(-1)
 	debug.SetMemoryLimit(2 << 30)
@@ -377,11 +440,6 @@ func main() {
 			stopProfile = pprof.StopCPUProfile
 		}
 	}
-	initUniverse()
-	initStateOrder()
-	initProbes()
-	initRange()
-
 	if r.ReplayPath != "" {
 		replay()
 		return
@@ -392,6 +450,15 @@ func main() {
 		r.SetDeadline(13 * time.Minute)
 	}
 	r.Exhaustive(true)
+	if rp := os.Getenv("VERIF_RACE_PASS"); strings.HasPrefix(rp, "race:") || strings.HasPrefix(rp, "failed:1:") {
+		// The -race pass found unsynchronised shared state in the code under test. Goroutines of this checker
+		// (and the code's own parallel hashing branch, whose goroutines' panics cannot be recovered here) would
+		// work on top of that race: enumerate on ONE goroutine, briefly, without the phase that reaches the
+		// parallel hashing branch. The run is decided by the data-race violation.
+		serialMode = true
+		r.SetDeadline(20 * time.Second)
+		r.NotExhaustive("the -race pass reported a data race: the enumeration ran on a single goroutine under a 20 s deadline and the derivesha phase (parallel hashing branch of the code under test) was skipped")
+	}
 
 	if !computeReferences() {
 		r.Finish()
@@ -412,7 +479,9 @@ func main() {
 	phaseGC()
 	phaseProofs()
 	phaseRange()
-	phaseDeriveSha()
+	if !serialMode {
+		phaseDeriveSha()
+	}
 	phaseOrder()
 	phaseDelOrder()
 	if stateOpsDepth > 1 {
@@ -437,8 +506,9 @@ func main() {
 		"gc: from each content state R, every Update/Delete, R (reference counting keeps shared nodes); states: per content state StackTrie root/commit, NodeIterator, secure trie; order: every insertion order (3 variants) and every deletion order from the full state; "+
 		"proofs: Prove/VerifyProof for %d probe keys per state in 3 representations and the full tamper matrix (drop, replace by any node of another key's proof, flip first/middle/last byte with 2 masks); "+
 		"range: fixed-length universe, every contiguous range x every left edge x every single-element tampering; derivesha: every list length 0..N x value patterns. "+
+		"race pass (run.sh, -race build, before this run): %d goroutines x (%d one-leaf warm-ups + %d iterations) on private tries / stack tries / secure tries / trie databases (Update, Delete, Get, Hash incl. the parallel branch with %d unhashed updates, Copy, Commit, database Update/Commit/Reference/Dereference, reopen, Prove+VerifyProof, NodeIterator, StackTrie hash+commit, DeriveSha with both hashers, VerifyRangeProof) plus reads (Get/Prove/NodeIterator) through private tries on 2 shared committed trie databases; deciding oracle = race detector, second oracle = equality with the single-threaded values. "+
 		"states = distinct content states reached on the real trie; transitions = operations executed on the real trie",
-		NK, NT, seqDepth, reducedText, NREPR, stateOpsDepth, len(probes)))
+		NK, NT, seqDepth, reducedText, NREPR, stateOpsDepth, len(probes), raceGoroutines, raceWarmup, raceIterations, raceBigKeys))
 	r.Assume(
 		"Keccak-256 is collision resistant; go-ethereum v1.9.15's trie is used only as a second opinion on the checker's own reference root (a disagreement between the two is a machinery error, not a verdict)",
 		"StackTrie (and types.DeriveSha, which feeds it) is specified for strictly ascending keys none of which is a prefix of another; its root is compared only on prefix-free content states",
@@ -446,6 +516,7 @@ func main() {
 		"proofs of the empty trie are not judged (Prove emits nothing and VerifyProof reports a missing root node)",
 		"the proof database handed to VerifyProof/VerifyRangeProof is keyed by the Keccak hash the CHECKER computes of each supplied node, as every caller builds it; VerifyProof itself does not re-hash",
 		"a tampered proof may verify to an error or to the same value; range proofs are judged on fixed-length keys only and with lastKey = last supplied key, as the callers use it",
+		"concurrency: distinct Trie / StackTrie objects may be used by different goroutines at the same time, and distinct tries may READ one trie database concurrently (hashdb documents and locks for this); a single Trie is not required to be safe for concurrent use",
 		"when a known finding stops the sequence enumeration from being the shortest failing history for an oracle, longer histories with the same oracle id are not reported separately",
 	)
 	r.Finish()
